@@ -138,6 +138,13 @@ def rangeLoop (down : Bool) (stop step : Value) : Nat â†’ Value â†’ List Value â
          | r => Res.cast r)
     | r => Res.cast r
 
+/-- `step.RawEquals(cty.PositiveInfinity) || step.RawEquals(cty.NegativeInfinity)` on a
+known, unmarked number -/
+def isInfNum (v : Value) : Bool :=
+  match v.v with
+  | .n (.inf _) => true
+  | _ => false
+
 def rangeImpl (E : Env) : Fn.ImplFn := fun args _ =>
   let sel : Res (Value Ã— Value Ã— Value Ã— Bool) :=
     match args with
@@ -156,6 +163,7 @@ def rangeImpl (E : Env) : Fn.ImplFn := fun args _ =>
   match sel with
   | .ok (start, stop, step, stepIsZero) =>
     if stepIsZero then .err "step must not be zero"
+    else if isInfNum step then .err "step must be finite"
     else
       (match isTrueR (Value.lessThan step zero) with
        | .ok down =>
